@@ -865,6 +865,118 @@ func runC03(c *Ctx) *Replay {
 			}
 		}
 	}
+	// a caller that keeps ONE ErrorWriter / ErrorReader for a sequence of records and does
+	// unrelated stream calls on other destinations in between: every record of the
+	// sequence is still its wire encoding, every conformant encoding still yields its value
+	if c.R.Chance(1, 3) {
+		sc := Scenario{Kind: "wireheld", Prog: pk.B.Prog.ID, Mask: pk.B.Mask, PeerMask: -1, Type: pk.Type, Value: &v,
+			Order: MapOrder{Strategy: simrt.OrderShuffle, Seed: c.R.Uint64()}, Sched: drawSchedule(c.R, 0, nil), Decoder: []string{"decode", "make"}[c.R.Intn(2)]}
+		viol := execWireHeld(c.N, &sc)
+		c.Count("evaluations", 1)
+		c.Count("held_sessions", 1)
+		c.State("c03h", shape, sc.Decoder)
+		if viol != nil {
+			return c.shrinkAndReport(&sc, viol)
+		}
+	}
+	return nil
+}
+
+func init() { execs["wireheld"] = execWireHeld }
+
+func execWireHeld(n *Node, sc *Scenario) *Violation {
+	b := n.Build(sc.Prog, sc.Mask, false)
+	if b == nil {
+		note(sc, "skipped", "build absent")
+		return nil
+	}
+	tt, _, err := n.typeOf(b, sc.Type)
+	if err != nil {
+		note(sc, "skipped", "no such type")
+		return nil
+	}
+	t := schema.Type{Named: sc.Type}
+	kind := recordKind(b.Schema, sc.Type)
+	want := val.Normalise(b.Schema, t, *sc.Value)
+	rec, err := n.fill(b, sc.Type, *sc.Value)
+	if err != nil {
+		return mismatch("bridge|fill", err.Error(), nil)
+	}
+	data := refcodec.Encode(b.Schema, t, permuteMaps(b.Schema, t, want, sc.Order, 1))
+	alloc, steps := budgetsFor(b.Schema, 2*len(data))
+	simrt.SetMapOrder(simrt.OrderCanonical, 0)
+	defer simrt.SetMapOrder(simrt.OrderNative, 0)
+	// somebody else's stream traffic, on a reader and a writer of its own
+	other := func() {
+		n.decode(b, sc.Type, "decode", data, &simnet.Schedule{Name: "all"}, nil, "plain", len(data))
+		n.encode(rec, "encode", sc.Order, nil, nil, "plain")
+		simrt.SetMapOrder(simrt.OrderCanonical, 0)
+	}
+	// encoder side
+	sink := simnet.NewSink(nil)
+	w := iohelp.NewErrorWriter(struct{ io.Writer }{sink})
+	for i := 0; i < 3; i++ {
+		var eerr error
+		cr := safeCall(alloc, steps, func() { eerr = rec.EncodeBebop(w) })
+		if v := callViolation(&cr, sc, b.Schema, "encode"); v != nil {
+			return v
+		}
+		if eerr != nil {
+			return mismatch("wireheld|encode-error|"+kind, fmt.Sprintf("EncodeBebop number %d onto the caller's healthy ErrorWriter failed: %v", i+1, eerr), map[string]string{"op": "encode", "record_kind": kind})
+		}
+		other()
+	}
+	rest := sink.Buf
+	for i := 0; i < 3; i++ {
+		got, m, derr := refcodec.Decode(b.Schema, t, rest)
+		if derr != nil {
+			return mismatch("wireheld|encode|"+kind+"|rejected", fmt.Sprintf("record %d of 3 written through one ErrorWriter is not a conformant encoding (%d bytes on the destination, %d left): %v", i+1, len(sink.Buf), len(rest), derr), map[string]string{"op": "encode", "record_kind": kind})
+		}
+		if d := val.Diff(b.Schema, t, want, val.Normalise(b.Schema, t, got)); d != "" {
+			return mismatch("wireheld|encode|"+kind+"|value", fmt.Sprintf("record %d of 3 written through one ErrorWriter decodes to another value: %s", i+1, d), map[string]string{"op": "encode", "record_kind": kind})
+		}
+		rest = rest[m:]
+	}
+	if len(rest) != 0 {
+		return mismatch("wireheld|encode|"+kind+"|length", fmt.Sprintf("%d bytes beyond the three records on the destination", len(rest)), map[string]string{"op": "encode", "record_kind": kind})
+	}
+	// decoder side: three conformant encodings on one stream, one ErrorReader
+	var stream []byte
+	for i := 0; i < 3; i++ {
+		stream = append(stream, data...)
+	}
+	s := simnet.Schedule{}
+	if sc.Sched != nil {
+		s = *sc.Sched
+	}
+	link := simnet.NewLink(stream, s, nil)
+	r := iohelp.NewErrorReader(struct{ io.Reader }{link})
+	for i := 0; i < 3; i++ {
+		var got reg.Record
+		var derr error
+		cr := safeCall(alloc, steps, func() {
+			if sc.Decoder == "make" && tt.Make != nil {
+				got, derr = tt.Make(r)
+			} else {
+				got = tt.New()
+				derr = got.DecodeBebop(r)
+			}
+		})
+		if v := callViolation(&cr, sc, b.Schema, sc.Decoder); v != nil {
+			return v
+		}
+		if derr != nil {
+			return mismatch("wireheld|refpeer-rejected|"+kind, fmt.Sprintf("conformant encoding %d of 3 on the caller's ErrorReader was rejected: %v", i+1, derr), map[string]string{"op": sc.Decoder, "record_kind": kind})
+		}
+		gv, _, err := n.readBack(b, sc.Type, got)
+		if err != nil {
+			return mismatch("bridge|read", err.Error(), nil)
+		}
+		if d := val.Diff(b.Schema, t, want, val.Canon(b.Schema, t, gv)); d != "" {
+			return mismatch("wireheld|refpeer-value|"+kind+"|"+pathShape(d), fmt.Sprintf("conformant encoding %d of 3 on the caller's ErrorReader gave another value: %s", i+1, d), map[string]string{"op": sc.Decoder, "record_kind": kind})
+		}
+		other()
+	}
 	return nil
 }
 
